@@ -2,7 +2,8 @@ import RpgpModel.S2k
 /-!
 # Proofs about `RpgpModel/S2k.lean` (helper lemmas for `RpgpProps/C12.lean`)
 -/
-namespace Rpgp
+namespace Rpgp.Sym
+open Rpgp
 open S2k
 
 theorem decodeCount_eq (c : Nat) : decodeCount c = (16 + c % 16) * 2 ^ (c / 16 + 6) := by
@@ -192,4 +193,4 @@ theorem plan_eval (P : Prims) (s : Spec) (pw : Bytes) (ks : Nat) :
     simp only [plan, derive, Spec.hashAlg]
     cases digestSize h <;> simp [hashedPlan_eval, bodyPlan_eval]
 
-end Rpgp
+end Rpgp.Sym
